@@ -328,6 +328,16 @@ private:
             CountType                       listElement,
             XalanDOMString&                 theResult) const;
 
+    /**
+     * Count the node for this instruction: through the counters table, or
+     * afresh if a pattern of the instruction refers to a variable.
+     */
+    CountType
+    countNode(
+            StylesheetExecutionContext&     executionContext,
+            CountersTable&                  theTable,
+            XalanNode*                      theNode) const;
+
     const XPath*    m_countMatchPattern;
     const XPath*    m_fromMatchPattern;
     const XPath*    m_valueExpr;
